@@ -101,3 +101,26 @@ def waiting_resume(doc):
             bad.append(f'resume({value!r}) recorded {got!r}')
             break
     return '; '.join(bad)
+
+
+# ---------------------------------------------------------------------------------------------------- C19
+def custom_meta_roundtrip(doc):
+    """get_custom_meta(s, n) after set_custom_meta(s, n, v), on the saved-state mapping of the counter-model"""
+    from plumpy.persistence import Savable
+
+    inp = _inputs(doc)
+    name = inp.get('name') if isinstance(inp.get('name'), str) else 'object_loader'
+    state = inp.get('saved_state', inp.get('out_state'))
+    state = state if isinstance(state, dict) else {}
+    state = {k: v for k, v in state.items() if isinstance(k, str)}
+    if not isinstance(state.get('!!meta', {}), dict):
+        state.pop('!!meta')
+    value = _plain(inp.get('value', 'the-recorded-value'))
+    Savable.set_custom_meta(state, name, value)
+    try:
+        got = Savable.get_custom_meta(state, name)
+    except ValueError as e:
+        return f'set_custom_meta(s, {name!r}, {value!r}) then get_custom_meta(s, {name!r}) raised ValueError({e}); s = {state!r}'
+    if got != value:
+        return f'get_custom_meta returned {got!r}, recorded {value!r}'
+    return None
